@@ -1,6 +1,7 @@
 package main
 
 import (
+	"bytes"
 	"encoding/binary"
 	"errors"
 	"fmt"
@@ -21,7 +22,13 @@ type sstWrite struct {
 	K     int    `json:"k"`
 	V     string `json:"v"`
 	Fault string `json:"fault"` // "", "data", "index"
+	Alt   bool   `json:"alt"`   // with the case-insensitive comparator: offer the UPPER-case spelling of the key (same rank, other bytes)
 }
+
+// a comparator under which keys that differ only in letter case are equal (keys of one rank then have several spellings)
+type nocaseCmp struct{}
+
+func (nocaseCmp) Compare(a, b []byte) int { return bytes.Compare(bytes.ToLower(a), bytes.ToLower(b)) }
 
 type sstReader struct {
 	Loader   string `json:"loader"` // slice | skiplist | map | disk
@@ -41,6 +48,7 @@ type sstCase struct {
 	Readers []sstReader `json:"readers"`
 	Probes  []int       `json:"probes"` // ranks probed with Contains / Get / ScanStartingAt
 	Ranges  [][2]int    `json:"ranges"` // (lo, hi) pairs probed with ScanRange
+	Cmp     string      `json:"cmp"`    // "" (bytes) | "nocase": writer and readers use the case-insensitive comparator
 }
 
 type sstIn struct {
@@ -90,6 +98,20 @@ func openReaderSafe(ropts ...sstables.ReadOption) (rd sstables.SSTableReaderI, e
 		}
 	}()
 	return sstables.NewSSTableReader(ropts...)
+}
+
+// the common length of all keys, or -1
+func uniformKeyLen(keys [][]byte) int {
+	if len(keys) == 0 {
+		return -1
+	}
+	n := len(keys[0])
+	for _, k := range keys {
+		if len(k) != n {
+			return -1
+		}
+	}
+	return n
 }
 
 func runSST(args []string) error {
@@ -173,7 +195,21 @@ func runSST(args []string) error {
 			return err
 		}
 		tr.emit(M{"t": "reset", "case": ci})
-		wopts := []sstables.WriterOption{sstables.WriteBasePath(dir), sstables.WithKeyComparator(skiplist.BytesComparator{}),
+		var kcmp skiplist.Comparator[[]byte] = skiplist.BytesComparator{}
+		spelled := map[int][]byte{} // rank -> the spelling that was accepted by the writer
+		if c.Cmp == "nocase" {
+			kcmp = nocaseCmp{}
+			for i, k := range keys {
+				rank[string(bytes.ToUpper(k))] = i
+			}
+		}
+		keyOf := func(k int) []byte {
+			if b, ok := spelled[k]; ok {
+				return b
+			}
+			return keys[k]
+		}
+		wopts := []sstables.WriterOption{sstables.WriteBasePath(dir), sstables.WithKeyComparator(kcmp),
 			sstables.DataCompressionType(c.DComp), sstables.IndexCompressionType(c.IComp)}
 		if c.WBuf > 0 {
 			wopts = append(wopts, sstables.WriteBufferSizeBytes(c.WBuf))
@@ -214,7 +250,14 @@ func runSST(args []string) error {
 			sstables.VerifOnWriterOpen = nil
 			for _, wr := range c.Writes {
 				failData, failIndex = wr.Fault == "data", wr.Fault == "index"
-				err := w.WriteNext(keys[wr.K], vb(wr.V))
+				wkey := keys[wr.K]
+				if wr.Alt && c.Cmp == "nocase" {
+					wkey = bytes.ToUpper(wkey)
+				}
+				err := w.WriteNext(wkey, vb(wr.V))
+				if err == nil {
+					spelled[wr.K] = wkey
+				}
 				injected := (wr.Fault == "data" && !failData) || (wr.Fault == "index" && !failIndex)
 				failData, failIndex = false, false
 				r := "ok"
@@ -239,7 +282,7 @@ func runSST(args []string) error {
 			return int(st.Size())
 		}
 		for ri, rc := range c.Readers {
-			ropts := []sstables.ReadOption{sstables.ReadBasePath(dir), sstables.ReadWithKeyComparator(skiplist.BytesComparator{})}
+			ropts := []sstables.ReadOption{sstables.ReadBasePath(dir), sstables.ReadWithKeyComparator(kcmp)}
 			if rc.RBuf > 0 {
 				ropts = append(ropts, sstables.ReadBufferSizeBytes(rc.RBuf))
 			}
@@ -249,9 +292,17 @@ func runSST(args []string) error {
 			}
 			switch rc.Loader {
 			case "skiplist":
-				ropts = append(ropts, sstables.ReadIndexLoader(&sstables.SkipListIndexLoader{KeyComparator: skiplist.BytesComparator{}, ReadBufferSize: rb}))
+				ropts = append(ropts, sstables.ReadIndexLoader(&sstables.SkipListIndexLoader{KeyComparator: kcmp, ReadBufferSize: rb}))
 			case "map":
-				ropts = append(ropts, sstables.ReadIndexLoader(&sstables.MapKeyIndexLoader[string]{ReadBufferSize: rb, Mapper: strMapper{}}))
+				// the library's own fixed-width key mappers where every key of the universe has that width, a string mapper otherwise
+				switch uniformKeyLen(keys) {
+				case 4:
+					ropts = append(ropts, sstables.ReadIndexLoader(&sstables.MapKeyIndexLoader[[4]byte]{ReadBufferSize: rb, Mapper: &sstables.Byte4KeyMapper{}}))
+				case 20:
+					ropts = append(ropts, sstables.ReadIndexLoader(&sstables.MapKeyIndexLoader[[20]byte]{ReadBufferSize: rb, Mapper: &sstables.Byte20KeyMapper{}}))
+				default:
+					ropts = append(ropts, sstables.ReadIndexLoader(&sstables.MapKeyIndexLoader[string]{ReadBufferSize: rb, Mapper: strMapper{}}))
+				}
 			case "disk":
 				ropts = append(ropts, sstables.ReadIndexLoader(&sstables.DiskIndexLoader{}))
 			case "slice":
@@ -278,13 +329,13 @@ func runSST(args []string) error {
 					"sizesOk": int(md.DataBytes) == fsize(sstables.DataFileName) && int(md.IndexBytes) == fsize(sstables.IndexFileName) &&
 						md.TotalBytes == md.DataBytes+md.IndexBytes}})
 			for _, p := range c.Probes {
-				ok, err := rd.Contains(keys[p])
+				ok, err := rd.Contains(keyOf(p))
 				if err != nil {
 					tr.emit(M{"t": "contains", "k": p, "r": "err:" + err.Error()})
 				} else {
 					tr.emit(M{"t": "contains", "k": p, "r": fmt.Sprint(ok)})
 				}
-				v, err := rd.Get(keys[p])
+				v, err := rd.Get(keyOf(p))
 				switch {
 				case errors.Is(err, sstables.NotFound):
 					tr.emit(M{"t": "get", "k": p, "r": "NotFound"})
